@@ -28,6 +28,17 @@ Ltac name_es_in H a f :=
   match type of H with context [sqrt ?e] => replace e with (ges2 a f) in H by (unfold ges2; field; split; lra) end;
   fold (es a f) in H.
 
+Ltac es_nonzero a f :=
+  match goal with
+  | |- context [Req_EM_T (es a f) 0] => destruct (Req_EM_T (es a f) 0) as [?E0|_]; [exfalso; lra|]
+  | |- context [Req_EM_T 0 (es a f)] => destruct (Req_EM_T 0 (es a f)) as [?E0|_]; [exfalso; lra|]
+  end.
+Ltac es_nonzero_in H a f :=
+  match type of H with
+  | context [Req_EM_T (es a f) 0] => destruct (Req_EM_T (es a f) 0) as [?E0|_] in H; [exfalso; lra|]
+  | context [Req_EM_T 0 (es a f)] => destruct (Req_EM_T 0 (es a f)) as [?E0|_] in H; [exfalso; lra|]
+  end.
+
 Lemma g_closed a f GM w lat h : dom a f GM ->
   C16_g_R a f GM w lat h = Val [gamma a f GM w lat h].
 Proof.
@@ -36,16 +47,16 @@ Proof.
   destruct D as (Ha & Hf & HG).
   unfold C16_ge_R in HGE; cbv zeta in HGE. name_es_in HGE a f.
   unfold C16_gp_R in HGP; cbv zeta in HGP. name_es_in HGP a f.
-  destruct (Req_EM_T (es a f) 0) as [E0|_] in HGE, HGP; [exfalso; lra|].
+  es_nonzero_in HGE a f. es_nonzero_in HGP a f.
   apply Val1_inv in HGE. apply Val1_inv in HGP.
   unfold C16_g_R; cbv zeta. name_es a f.
-  destr_dec; [exfalso; lra|].
+  es_nonzero a f.
   rewrite HGE, HGP. fold (gE a f GM w) (gP a f GM w). fold (sin2d lat).
   unfold gamma, somig.
   replace (1 - (2*f - f^2) * sin2d lat) with (1 - (2*f - f*f) * sin2d lat) by ring.
   destr_dec.
   - subst h. rewrite hfac_0 by lra. val_eq. ring.
-  - val_eq. unfold hfac, mof. field. lra.
+  - val_eq. unfold hfac, mof. apply Rmult_eq_compat_l. field. lra.
 Qed.
 
 Lemma g0_closed a f GM w lat : dom a f GM ->
@@ -56,10 +67,10 @@ Proof.
   destruct D as (Ha & Hf & HG).
   unfold C16_ge_R in HGE; cbv zeta in HGE. name_es_in HGE a f.
   unfold C16_gp_R in HGP; cbv zeta in HGP. name_es_in HGP a f.
-  destruct (Req_EM_T (es a f) 0) as [E0|_] in HGE, HGP; [exfalso; lra|].
+  es_nonzero_in HGE a f. es_nonzero_in HGP a f.
   apply Val1_inv in HGE. apply Val1_inv in HGP.
   unfold C16_g0_R; cbv zeta. name_es a f.
-  destr_dec; [exfalso; lra|].
+  es_nonzero a f.
   rewrite HGE, HGP. fold (gE a f GM w) (gP a f GM w). fold (sin2d lat).
   unfold gamma, somig. rewrite hfac_0 by lra.
   replace (1 - (2*f - f^2) * sin2d lat) with (1 - (2*f - f*f) * sin2d lat) by ring.
